@@ -216,14 +216,15 @@ DropBegin ==
   /\ Req("C05", ~s.ambient => ((Ev.how = "unwind") = s.unwinding))
   /\ s' = [s EXCEPT !.phase = "drop"]
 
-\* the verifier that should speak at a normal scope exit: the first one whose count is off
+\* the verifiers that may speak at a normal scope exit: those whose count is off.  WHICH of several speaks is the
+\* implementation's business (the pinned tree asks them oldest-first; a refactor asking newest-first raised a false alarm
+\* while this rule still named the first one): the verdict names the two numbers of one of them
 BadVerifiers == {i \in 1..Len(s.ver) : s.cnt[s.ver[i].site] # s.ver[i].n}
-FirstBad == CHOOSE i \in BadVerifiers : \A j \in BadVerifiers : i <= j
 
 ExitVerdictOk ==
   IF BadVerifiers = {} THEN Ev.outcome = "ok"
   ELSE /\ Ev.outcome = "panic" /\ Ev.cls = "count"
-       /\ Ev.exp = s.ver[FirstBad].n /\ Ev.act = s.cnt[s.ver[FirstBad].site]
+       /\ \E i \in BadVerifiers : Ev.exp = s.ver[i].n /\ Ev.act = s.cnt[s.ver[i].site]
 
 DropEnd ==
   /\ Step("DropEnd") /\ s.phase = "drop"
